@@ -5,7 +5,7 @@ from . import rule, info
 from ..program import AnalysisError, src, norm
 from ..pattern import match, matches
 from ..util import (polarity, exclusive, is_name, calls_in, callee_qual, deref, ancestors, evaluator_calls, handler_outcomes,
-                    stmt_of, fmt_witness, parent)
+                    stmt_of, fmt_witness, parent, locals_from_attrs)
 
 info('C03',
      explanation='Static decision of: SKIP/STOP discipline (a sub-result is tested against the '
@@ -321,7 +321,7 @@ def chaining(ctx):
     ctx.ob(is_name(c.args[1], loops[0].target.id if isinstance(loops[0].target, ast.Name) else None), u,
            'each step evaluates its own sub-spec: %s' % norm(c), node=c)
     rets = [n for n in u.own_nodes() if isinstance(n, ast.Return)]
-    ctx.ob(len(rets) == 1 and is_name(rets[0].value, res), u, 'the last result is returned: %s'
+    ctx.ob(len(rets) >= 1 and all(is_name(r.value, res) for r in rets), u, 'the last result is returned: %s'
            % [norm(r) for r in rets])
     # res is not initialised to anything but the target
     inits = [n for n in u.node.body if isinstance(n, ast.Assign) and any(is_name(t, res) for t in n.targets)]
@@ -649,8 +649,43 @@ def wrappers(ctx):
     ok = len(evs) >= 1 and all(is_name(e.args[0], u.params[1]) and is_name(e.args[2], u.params[2]) for e in evs) \
         and not any(a is not b and rcfg.find_path(a, {b}) is not None for a in ens for b in ens)
     ctx.ob(ok, u, 'Ref evaluates the referenced spec on the same target, once: %s' % [norm(e) for e in evs])
+    # a defining Ref(name, sub) binds the name for its own evaluation -- always: an enclosing
+    # or earlier definition of the same name is shadowed, never kept
+    subv = locals_from_attrs(u, {'subspec'}, recv=u.params[0]).get('subspec')
+    tests = [(t, polarity(t.ast, '%s is _MISSING' % subv)) for t in rcfg.nodes if t.kind == 'test' and subv]
+    tests = [(t, e) for t, e in tests if e]
+    binds = [n for n in rcfg.nodes if n.kind == 'stmt' and isinstance(n.ast, ast.Assign)
+             and isinstance(n.ast.targets[0], ast.Subscript) and is_name(n.ast.targets[0].value, u.params[2])
+             and is_name(n.ast.value, subv)]
+    ok = len(tests) == 1 and bool(binds) and bool(ens)
+    wit = None
+    if ok:
+        t, e = tests[0]
+        defining = 'false' if e == 'true' else 'true'
+        ok, wit = rcfg.must_pass(t, set(ens), set(binds), labels=lambda l: l != 'exc', start_labels=lambda l: l == defining)
+    ctx.ob(ok, u, 'a defining Ref binds its name on every path to the evaluation: %s' % [norm(b.ast) for b in binds],
+           '' if ok else 'an outer / earlier binding of the same name is kept: %s' % (fmt_witness(rcfg, wit) if wit else 'no unconditional binding'))
     # Invoke: func(*all_args, **all_kwargs) with parts evaluated in order
     u = ctx.unit('core.Invoke.glomit')
+    icfg = ctx.cfg(u)
+    star = [(t, polarity(t.ast, "$o == '*'")) for t in icfg.nodes if t.kind == 'test']
+    star = [(t, e) for t, e in star if e]
+    ctx.ob(len(star) == 1, u, "the star() branch is selected by op == '*'")
+    if len(star) == 1:
+        region = set(exclusive(icfg, *star[0]))
+        recs = [n for n in region if n.ast is not None and n.kind == 'stmt'
+                and any(isinstance(c, ast.Call) and is_name(c.func) and c.args and is_name(c.args[0]) for c in ast.walk(n.ast))]
+        nrec = 0
+        for n in recs:
+            for c in ast.walk(n.ast):
+                if isinstance(c, ast.Call) and is_name(c.func) and len(c.args) == 1 and is_name(c.args[0]) and c.func.id not in ('len', 'list', 'tuple', 'dict'):
+                    part = c.args[0].id
+                    guards = [t for t in region if t.kind == 'test' and (n in exclusive(icfg, t, 'true') or n in exclusive(icfg, t, 'false'))]
+                    bad = [norm(t.ast) for t in guards if polarity(t.ast, '%s is None' % part) is None]
+                    nrec += 1
+                    ctx.ob(not bad, u, 'a starred part is evaluated whenever it was given (tested against None only): %s' % norm(c),
+                           '' if not bad else 'guard %s: a falsy spec such as () is a spec too (the identity chain) and is dropped' % bad, node=n.ast)
+        ctx.ob(nrec == 2, u, 'star(args=, kwargs=) parts evaluated: %d' % nrec)
     r = [n for n in u.own_nodes() if isinstance(n, ast.Return)]
     ok = len(r) == 1 and isinstance(r[0].value, ast.Call) and len(r[0].value.args) == 1 \
         and isinstance(r[0].value.args[0], ast.Starred) and len(r[0].value.keywords) == 1 \
@@ -662,7 +697,7 @@ def wrappers(ctx):
         for e in evs:
             ok = is_name(e.args[0], u.params[1]) and is_name(e.args[1], lu.params[0]) and is_name(e.args[2], u.params[2])
             ctx.ob(ok, u, 'Invoke evaluates spec arguments on the current target: %s' % norm(e), node=e)
-    ctx.floor(9)
+    ctx.floor(13)
 
 
 @rule('C03.16')
